@@ -34,6 +34,19 @@ def run_check(pid, tier, root=None, write=True):
     except Exception as e:
         import traceback
         run.unknown('check-aborted', 'internal error: ' + traceback.format_exc()[-600:], rule='CORE')
+    # generic call-site rule over the functions this property's rules consulted
+    def _argswap(run):
+        from .rules.argswap import argswap_rule
+        run.rule('ARGSWAP', 'at every call of a repository function made from a function this property is anchored in, no two '
+                 'positional arguments are crossed with respect to the callee\'s parameter names')
+        quals = sorted(set(q for r, qs in prog.consulted.items() if r != 'ARGSWAP' for q in qs))
+        funcs = []
+        for q in quals:
+            try: funcs.append(prog.func(q))
+            except AnalysisError: pass
+        n = argswap_rule(run, funcs)
+        run.ok('call sites with a resolved callee in %d anchored functions' % len(funcs), {'call_sites': n})
+    run.guarded('ARGSWAP', _argswap)
     if tier == 'thorough' and root is None:
         # deeper tier: the checker itself is validated by single-instance mutants and behaviour-preserving twins
         from . import selftest
